@@ -5,7 +5,7 @@ props = [json.loads(l) for l in open('/verif/properties.jsonl')]
 ids = [p['id'] for p in props]
 
 NOTE_COMMON = ("Trusted base: the harness itself (reference engine, monitors, generators), rustc, and the validity rules of the "
-               "property as enforced by the generators. Real bourse code runs unmodified (no hooks). Sampling: a clean batch is evidence, not proof.")
+               "property as enforced by the generators. Real bourse code runs unmodified; the only hook is the read-only cargo feature `verif` (queued-instruction accessors, see hooks). Sampling: a clean batch is evidence, not proof.")
 
 C = {}
 def claim(pid, text, note, technique, ref):
@@ -17,13 +17,13 @@ claim("C02", "Seeded search over histories incl. modifications, trading halts an
       NOTE_COMMON, "deterministic simulation: invariant monitoring by independent recomputation under halt / restart faults", "DESIGN.md §4 C02")
 claim("C03", "Seeded search; a model-free ledger audit runs after every operation: log prefix immutable, every new record checked field by field against both counterparties, per-order volume reconciled with the fills logged in that operation, cumulative counter equals the sum since the last reset.",
       NOTE_COMMON, "deterministic simulation: ledger audit over the recorded history (conservation / exactly-once)", "DESIGN.md §4 C03")
-claim("C04", "Seeded search with a heavy share of duplicated and stale requests; per-order transition relation checked between consecutive observations and complete-snapshot equality around every redundant request.",
+claim("C04", "Seeded search with a heavy share of duplicated and stale requests and crash-restarts through JSON (the restart itself is checked as a no-op); per-order transition relation checked between consecutive observations and complete-snapshot equality around every redundant request.",
       NOTE_COMMON, "deterministic simulation: duplicate / stale request injection, lifecycle monitor + snapshot equality", "DESIGN.md §4 C04")
 claim("C06", "Seeded search over populated queues and every modify shape; refinement against the reference engine (reduce-in-place vs remove-and-re-enter, < vs <= at equal volume) plus model-free identity checks, drain probe reveals the queue order.",
       NOTE_COMMON, "deterministic simulation: refinement against reference engine, drain probe", "DESIGN.md §4 C06")
 claim("C12", "Fault injection of invalid creation / re-price requests at random points of histories through OrderBook and Market; Ok <=> on grid, complete-snapshot equality around every rejection, dense next id, all resting prices on the grid after every operation, per-level data accounts for resting volume.",
-      NOTE_COMMON + " Environment-level creation paths are covered by the W3 world (see C08/C10 evidence) once built.", "deterministic simulation: invalid-request fault injection with snapshot comparison", "DESIGN.md §4 C12")
-claim("C13", "Seeded search with the trading switch toggled at arbitrary points (halt = partition, resume = heal); refinement against the reference engine carrying the flag plus model-free clauses (no trade while halted, rejected market orders leave the book untouched, a toggle alone changes nothing).",
+      NOTE_COMMON + " A fifth of the runs go through Env / MarketEnv (W3 world). Both ends of the price domain appear as creation requests (created only) and 2^32-1 as an off-grid re-price request.", "deterministic simulation: invalid-request fault injection with snapshot comparison", "DESIGN.md §4 C12")
+claim("C13", "Seeded search with the trading switch toggled at arbitrary points (halt = partition, resume = heal), redundant requests and the switch of a single asset's book through Market::get_order_book_mut included; refinement against the reference engine carrying the flag plus model-free clauses (no trade while halted, rejected market orders leave the book untouched, a toggle alone changes nothing).",
       NOTE_COMMON, "deterministic simulation: halt/resume fault injection, refinement + invariants", "DESIGN.md §4 C13")
 
 import importlib.util, os
